@@ -222,7 +222,7 @@ func runC15(s *kernel.Sim) {
 	threshold := tp.Range(2, 5)
 	n := tp.Range(5, 120)
 	nIDs := threshold + tp.Range(0, 4)
-	methods := []string{"GET", "POST", "GET", "get"} // a method is attributed as it was logged; another spelling is another endpoint
+	methods := []string{"GET", "POST", "GET", "get"}          // a method is attributed as it was logged; another spelling is another endpoint
 	statuses := []int{200, 200, 404, 500, 200, 499, 520, 599} // among them codes that have no registered name
 	consumers := []string{"", "c1", "c2"}
 	interceptors := []string{"lunar-py-interceptor/1.0.0", "lunar-java-interceptor/2.1", "", "garbage"}
